@@ -4,7 +4,7 @@
    datagrams of any kind incl. forged or stale ack fields, reconfiguration). *)
 From Model Require Import Base SeqNum Wire Conn.
 From Proofs Require Import SeqNumP ConnFrameP NonceP AckP CallbackP AckNamesP.
-From Proofs Require Import OnceP.
+From Proofs Require Import OnceP OnceLiveP.
 Open Scope Z_scope.
 
 (* 1. Success is only ever reported while processing a received datagram that passes the
@@ -182,6 +182,31 @@ Proof.
 Qed.
 Print Assumptions C07_callback_at_most_once_best_effort_refuted.
 
+(* 6. The at-least-once half, for the stage "attached to a pending datagram -> reported" of a plain
+      (unretried-send) user callback: `Pending c id s t` = callback id is in the callback list of
+      the pending datagram s, assembled at time t.  Over every history that keeps the connection open
+      (no disconnect; message time-out and send interval not reconfigured; AInv as in 3) such a
+      callback is never dropped: it stays attached to that pending datagram or it has been
+      reported ... *)
+Theorem C07_pending_callback_kept : forall e S K xs c n c' oss,
+  all_open xs -> AInv S K c n -> run e c xs = (c', oss) ->
+  forall id s t, Pending c id s t -> In id (fired (concat oss)) \/ Pending c' id s t.
+Proof. exact run_Keep. Qed.
+Print Assumptions C07_pending_callback_kept.
+
+(*    ... hence, with the resolution deadline (3), it HAS been reported at the latest by the first
+      rate-gated tick later than the message time-out after the datagram was assembled; by 5 it is
+      reported exactly once.  (The stage "queued -> attached to a datagram" and the callbacks of
+      guaranteed and of fragmented sends are not covered by a theorem: harness oracle.) *)
+Theorem C07_pending_callback_reported_by_deadline : forall e S K xs c n c1 oss now c2 o id s t,
+  all_open xs -> AInv S K c n -> Pending c id s t ->
+  run e c xs = (c1, oss) ->
+  c_send_interval c1 < now - c_last_send c1 -> server_tick e c1 now = (c2, o) ->
+  c_out_timeout c1 < now - t ->
+  In id (fired (concat oss ++ o)).
+Proof. exact pending_reported_by_deadline. Qed.
+Print Assumptions C07_pending_callback_reported_by_deadline.
+
 (* non-vacuity: a CONNECTED key holder sends one message with callback 5; the datagram is acked by
    an authentic keep-alive of the peer -> callback 5 fires once with True; a second message (6) is
    never acked -> callback 6 fires once with False at the first tick past the message time-out *)
@@ -228,3 +253,19 @@ Example C07_each_callback_once :
   filter (fun o => match o with OCallback _ _ => true | _ => false end) (concat oss)
   = [OCallback 5 true; OCallback 7 true; OCallback 8 true; OCallback 6 false].
 Proof. split; [repeat constructor|]. split; [reflexivity|]. vm_compute. reflexivity. Qed.
+
+(* non-vacuity of 6: after a send with callback 6 and one tick, callback 6 is attached to the pending
+   datagram 1 assembled at 1536300 in a state satisfying AInv; the first tick past the message
+   time-out reports it *)
+Example C07_pending_reported :
+  AInv 256 0 c_ex0 0 /\
+  let c6 := fst (run env_ex0 c_ex0 [ESend [x02] RNone (IUser 6); EClientTick 1536300 RxNone]) in
+  Pending c6 6 1 1536300 /\ fired (snd (server_tick env_ex0 c6 (1536300 + TICKS + 1))) = [6].
+Proof.
+  split; [|split].
+  - split; [|constructor].
+    constructor; [vm_compute; discriminate|reflexivity|vm_compute; discriminate|reflexivity
+                 |split; [vm_compute; discriminate|reflexivity]|constructor|constructor|reflexivity].
+  - exists [Plain (IUser 6)]. vm_compute. auto.
+  - vm_compute. reflexivity.
+Qed.
